@@ -178,3 +178,14 @@ PROPS['C08']['eb'] = [EB_SVCTIME] + PROPS['C08'].get('eb', [])
 EB_LIMITS = {'name': 'limits', 'crate': 'gneiss-mqtt', 'module_dir': 'gneiss_mqtt', 'filters': ['limits::'], 'tests': ['server_limits_hold_on_the_wire_with_aliases'], 'timeout': 3000}
 PROPS['C16']['eb'].append(EB_LIMITS)
 PROPS['C17']['eb'].append(EB_LIMITS)
+
+EB_TOKIO = {'name': 'driver-tokio', 'crate': 'gneiss-mqtt', 'module_dir': 'gneiss_mqtt', 'features': ['tokio'], 'raw_filters': ['verif_bounded::driver_tokio'],
+            'tests': ['tokio_driver_moves_bytes_faithfully_under_partial_writes'], 'timeout': 3000}
+PROPS['C13']['eb'].append(EB_TOKIO)
+
+EB_REFDEC = {'name': 'refdec', 'crate': 'gneiss-mqtt', 'module_dir': 'gneiss_mqtt', 'filters': ['refdec::'],
+             'tests': ['outbound_packets_conform_to_reference_decoder', 'reference_decoder_self_check', 'reference_comparison_is_sensitive'], 'timeout': 3000}
+EB_REFENC = {'name': 'refenc', 'crate': 'gneiss-mqtt', 'module_dir': 'gneiss_mqtt', 'filters': ['refenc::'],
+             'tests': ['inbound_packets_from_reference_encoder_decode_faithfully', 'reference_encoder_known_vectors'], 'timeout': 3000}
+PROPS['C02']['eb'].append(EB_REFDEC)
+PROPS['C03']['eb'].append(EB_REFENC)
